@@ -1188,6 +1188,18 @@ func init() {
 						return false
 					}
 				}
+				// width / precision / flags on %v and %s: what fmt does with the Error() string
+				for _, spec := range []string{"%.0s", "%.0v", "%.s", "%5.0s", "%.3s", "%.3v", "%12s", "%-12v", "%012s", "%3.1v", "%-6.2s", "% s", "%#s"} {
+					o.evals++
+					want := fmt.Sprintf(strings.Replace(spec, "v", "s", 1), text)
+					if spec == "%#s" || spec == "% s" {
+						want = fmt.Sprintf(spec, text)
+					}
+					if got := fmt.Sprintf(spec, tg.v); got != want {
+						o.fail(fmt.Sprintf("%s of %s differs from fmt's rendering of the Error() string (%s)", spec, tg.name, where), "", firstDiff(got, want))
+						return false
+					}
+				}
 				for _, spec := range []string{"%d", "%t", "%e"} {
 					o.evals++
 					got := fmt.Sprintf(spec, tg.v)
